@@ -96,6 +96,10 @@ type tspec struct {
 	allOf bool
 	opt   bool // the object (shared or private copy) is created with jschema.KeysAreOptionalByDefault()
 
+	// scalars.go: document tokens around the scalar rules of the text, by member name ("\x00…": of no member —
+	// the text is a scalar itself, or the rule stands in an array)
+	probes map[string][]string
+
 	// stream "broken" (broken.go)
 	recipe  string   // how to write text down (a loop), for the replay description
 	defect  string   // "" = sound; else the kind of error only the check of a ROOT finds in it
@@ -116,13 +120,14 @@ type nadd struct {
 }
 
 type nroot struct {
-	id    string
-	text  string
-	opt   bool // created with jschema.KeysAreOptionalByDefault(): a lenient root next to strict ones over the same type objects
-	rules []nrule
-	adds  []nadd
-	pre   bool // set up before the goroutines start
-	gs    int  // goroutines using it
+	id     string
+	text   string
+	opt    bool // created with jschema.KeysAreOptionalByDefault(): a lenient root next to strict ones over the same type objects
+	rules  []nrule
+	adds   []nadd
+	probes map[string][]string // as tspec.probes, for the root's own text
+	pre    bool                // set up before the goroutines start
+	gs     int                 // goroutines using it
 }
 
 // enum rule texts with a value that belongs to them
@@ -140,6 +145,14 @@ var orAlts = []struct{ rule, example string }{
 // orRule: a rule-set list of 2..3 different alternatives; refs (names of user
 // types) are mixed in as "@K" or {type: "@K"}.
 func orRule(r *rand.Rand, refs ...string) (rule, example string) {
+	rule, example, _ = orRuleP(r, refs...)
+	return rule, example
+}
+
+// orRuleP: one time out of three one of the alternatives is a scalar type with
+// rules from scalars.go (`{type: "float", min: 2.50, max: 3.10}`); the probes
+// around its rules are returned as well.
+func orRuleP(r *rand.Rand, refs ...string) (rule, example string, probes []string) {
 	n := 2 + r.Intn(2)
 	perm := r.Perm(len(orAlts))
 	var alts []string
@@ -147,6 +160,17 @@ func orRule(r *rand.Rand, refs ...string) (rule, example string) {
 		alts = append(alts, orAlts[i].rule)
 	}
 	example = orAlts[perm[0]].example
+	if r.Intn(3) == 0 {
+		f := scalarMember(r)
+		for f.typ == "" {
+			f = scalarMember(r)
+		}
+		at := r.Intn(n)
+		alts[at], probes = f.orAlt(), f.probes
+		if at == 0 {
+			example = f.example
+		}
+	}
 	for _, ref := range refs {
 		a := fmt.Sprintf("%q", ref)
 		if r.Intn(2) == 0 {
@@ -155,7 +179,7 @@ func orRule(r *rand.Rand, refs ...string) (rule, example string) {
 		at := r.Intn(len(alts) + 1)
 		alts = append(alts[:at], append([]string{a}, alts[at:]...)...)
 	}
-	return "{or: [" + strings.Join(alts, ", ") + "]}", example
+	return "{or: [" + strings.Join(alts, ", ") + "]}", example, probes
 }
 
 // field: one member of an object / array text; ann goes behind the comma.
@@ -188,6 +212,23 @@ type textGen struct {
 	anon  bool
 	tag   string // makes key and rule names unique per object
 	n     int
+
+	probes map[string][]string // see tspec.probes
+}
+
+// note: the probes of the member written with the key literal keyLit ("": of a nameless place).
+func (g *textGen) note(keyLit string, tokens []string) {
+	if len(tokens) == 0 {
+		return
+	}
+	if g.probes == nil {
+		g.probes = map[string][]string{}
+	}
+	k := fmt.Sprintf("\x00%d", len(g.probes))
+	if keyLit != "" {
+		k = unquoteKey(keyLit)
+	}
+	g.probes[k] = append(g.probes[k], tokens...)
 }
 
 func (g *textGen) key(prefix string) string {
@@ -198,11 +239,19 @@ func (g *textGen) key(prefix string) string {
 // ownField: a member that refers to no user type.
 func (g *textGen) ownField(indent string) field {
 	r := g.r
-	switch x := r.Intn(20); {
+	switch x := r.Intn(26); {
+	case x >= 20:
+		// a scalar with rules whose numerals / lengths matter (scalars.go)
+		f := scalarMember(r)
+		k := g.key("v")
+		g.note(k, f.probes)
+		return field{k + ": " + f.example, f.rule()}
 	case x < 6:
-		rule, ex := orRule(r)
+		rule, ex, pr := orRuleP(r)
 		g.anon = true
-		return field{g.key("o") + ": " + ex, rule}
+		k := g.key("o")
+		g.note(k, pr)
+		return field{k + ": " + ex, rule}
 	case x < 8:
 		return field{g.key("e") + `: "a"`, `{enum: ["a", "b"]}`}
 	case x < 11:
@@ -213,17 +262,32 @@ func (g *textGen) ownField(indent string) field {
 	case x < 13:
 		return field{g.key("p") + ": 1", "{min: 0}"}
 	case x < 16:
-		rule, ex := orRule(r)
+		rule, ex, pr := orRuleP(r)
 		g.anon = true
-		inner := []field{{g.key("o") + ": " + ex, rule}}
+		k := g.key("o")
+		g.note(k, pr)
+		inner := []field{{k + ": " + ex, rule}}
 		if r.Intn(2) == 0 {
 			inner = append(inner, field{g.key("q") + `: "s"`, "{optional: true}"})
 		}
+		if r.Intn(3) == 0 {
+			f := scalarMember(r)
+			k := g.key("v")
+			g.note(k, f.probes)
+			inner = append(inner, field{k + ": " + f.example, f.rule()})
+		}
 		return field{g.key("n") + ": " + joinFields("{", "}", inner, "", indent+"  "), ""}
 	case x < 18:
-		rule, ex := orRule(r)
+		k := g.key("l")
+		if r.Intn(3) == 0 { // an array of scalars with rules
+			f := scalarMember(r)
+			g.note(k, f.probes)
+			return field{k + ": " + joinFields("[", "]", []field{{f.example, f.rule()}}, "", indent+"  "), ""}
+		}
+		rule, ex, pr := orRuleP(r)
 		g.anon = true
-		return field{g.key("l") + ": " + joinFields("[", "]", []field{{ex, rule}}, "", indent+"  "), ""}
+		g.note(k, pr)
+		return field{k + ": " + joinFields("[", "]", []field{{ex, rule}}, "", indent+"  "), ""}
 	default:
 		return field{g.key("s") + `: "abc"`, `{regex: "[a-z]+"}`}
 	}
@@ -232,6 +296,24 @@ func (g *textGen) ownField(indent string) field {
 // refField: a member that refers to the user type k (others: further names
 // that may be mixed into or forms).
 func (g *textGen) refField(k *tspec, others []string) field {
+	f := g.refField1(k, others)
+	// the member holds a value of k: the tokens around the rules of a scalar k belong to this member too
+	if i := strings.Index(f.head, `": `); i > 0 && strings.HasPrefix(f.head, `"`) {
+		keys := make([]string, 0, len(k.probes))
+		for pk := range k.probes {
+			if strings.HasPrefix(pk, "\x00") {
+				keys = append(keys, pk)
+			}
+		}
+		sort.Strings(keys)
+		for _, pk := range keys {
+			g.note(f.head[:i+1], k.probes[pk])
+		}
+	}
+	return f
+}
+
+func (g *textGen) refField1(k *tspec, others []string) field {
 	r := g.r
 	for {
 		switch r.Intn(11) {
@@ -290,14 +372,24 @@ type forestGen struct {
 
 func (fg *forestGen) leafText(g *textGen) (text string, shape int, value string) {
 	r := fg.r
-	switch x := r.Intn(12); {
+	switch x := r.Intn(15); {
+	case x >= 12:
+		// a scalar type with rules whose numerals / lengths matter (scalars.go)
+		f := scalarMember(r)
+		g.note("", f.probes)
+		shape := shScalar
+		if f.typ == "string" && !strings.Contains(f.rule(), "const") {
+			shape = shString
+		}
+		return f.example + " // " + f.rule(), shape, f.example
 	case x < 2:
 		return `"abc" // {regex: "[a-z]+"}`, shString, `"abc"`
 	case x < 3:
 		return `"ab" // {minLength: 1}`, shString, `"ab"`
 	case x < 5:
-		rule, ex := orRule(r)
+		rule, ex, pr := orRuleP(r)
 		g.anon = true
+		g.note("", pr)
 		return ex + " // " + rule, shScalar, ex
 	case x < 6:
 		e := nestedEnums[r.Intn(len(nestedEnums))]
@@ -307,8 +399,9 @@ func (fg *forestGen) leafText(g *textGen) (text string, shape int, value string)
 	case x < 7:
 		return `1 // {min: 0}`, shScalar, `1`
 	case x < 8:
-		rule, ex := orRule(r)
+		rule, ex, pr := orRuleP(r)
 		g.anon = true
+		g.note("", pr)
 		return joinFields("[", "]", []field{{ex, rule}}, "", ""), shArray, ""
 	default:
 		var fs []field
@@ -420,7 +513,7 @@ func (fg *forestGen) node(level, depth int) *tspec {
 			t.text = joinFields("{", "}", fs, topAnn, "")
 		}
 	}
-	t.rules, t.anon = g.rules, g.anon
+	t.rules, t.anon, t.probes = g.rules, g.anon, g.probes
 	fg.f.nodes = append(fg.f.nodes, t)
 	return t
 }
@@ -531,7 +624,7 @@ func genRoots(r *rand.Rand, f *forest, broken bool) []*nroot {
 			r.Shuffle(len(fs), func(i, j int) { fs[i], fs[j] = fs[j], fs[i] })
 			rt.text = joinFields("{", "}", fs, "", "")
 		}
-		rt.rules = g.rules
+		rt.rules, rt.probes = g.rules, g.probes
 		roots = append(roots, rt)
 	}
 	return roots
@@ -725,13 +818,17 @@ func describeNested(f *forest, roots []*nroot) string {
 var fixedDocs = []string{`{}`, `[]`, `"abc"`, `{"a":`}
 
 // mutateDocs: the example of the sequential run and neighbours of it.
-func mutateDocs(r *rand.Rand, example string, maxDropDocs int) []string {
-	docs := append([]string{}, fixedDocs...)
+//
+// The documents from index probeFrom on are the PROBE documents (scalars.go):
+// the example with scalar leaves replaced by tokens on and around the bounds
+// of the scalar rules (pt: the probes of the texts the root is made of).
+func mutateDocs(r *rand.Rand, example string, maxDropDocs int, pt *probeTab, nProbeDocs int) (docs []string, probeFrom int) {
+	docs = append([]string{}, fixedDocs...)
 	var v interface{}
 	dec := stdjson.NewDecoder(strings.NewReader(example))
 	dec.UseNumber()
 	if example == "" || dec.Decode(&v) != nil {
-		return docs
+		return docs, len(docs)
 	}
 	docs = append(docs, example)
 	repl := []interface{}{true, "zz", stdjson.Number("12"), stdjson.Number("-3"), nil, map[string]interface{}{}, []interface{}{}, "abc", stdjson.Number("2.5")}
@@ -812,7 +909,33 @@ func mutateDocs(r *rand.Rand, example string, maxDropDocs int) []string {
 			docs = append(docs, d)
 		}
 	}
-	return docs
+	probeFrom = len(docs)
+	return append(docs, probeDocs(r, v, pt, nProbeDocs)...), probeFrom
+}
+
+// probesOf: the probes of everything rt is made of.
+func probesOf(rt *nroot) *probeTab {
+	pt := newProbeTab()
+	pt.merge(rt.probes)
+	seen := map[*tspec]bool{}
+	var walk func(t *tspec)
+	walk = func(t *tspec) {
+		if seen[t] {
+			return
+		}
+		seen[t] = true
+		pt.merge(t.probes)
+		for _, k := range t.kids {
+			walk(k)
+		}
+		for _, k := range t.refs {
+			walk(k)
+		}
+	}
+	for _, a := range rt.adds {
+		walk(a.t)
+	}
+	return pt
 }
 
 func imin(a, b int) int {
@@ -880,7 +1003,7 @@ func dropOneKey(v interface{}) []func() string {
 // ---------------------------------------------------------------- oracle
 
 // nestedOracle: rt over a fresh forest, sequentially.
-func nestedOracle(rt *nroot, r *rand.Rand, maxDropDocs int) target {
+func nestedOracle(rt *nroot, r *rand.Rand, maxDropDocs, nProbeDocs int) target {
 	w := want{ops: map[string]string{}}
 	s, setupRes := setupRoot(rt, newInstance(), nil)
 	w.setup = setupRes
@@ -902,12 +1025,12 @@ func nestedOracle(rt *nroot, r *rand.Rand, maxDropDocs int) target {
 			}
 		}
 	}
-	docs := mutateDocs(r, example, maxDropDocs)
+	docs, probeFrom := mutateDocs(r, example, maxDropDocs, probesOf(rt), nProbeDocs)
 	for d := range docs {
 		res, _, _ := observe(s, opValidate, docs[d])
 		w.ops[opKey(opValidate, d)] = res
 	}
-	return target{id: rt.id, text: rt.text, docs: docs, w: w}
+	return target{id: rt.id, text: rt.text, docs: docs, probeFrom: probeFrom, w: w}
 }
 
 // sequentialAgain: a second sequential run, this time all roots one after
@@ -1036,7 +1159,12 @@ func prepareNestedRound(col *collector, round int, stream string) *prepared {
 		if stream == "broken" {
 			maxDropDocs = 2
 		}
-		p.targets[i] = nestedOracle(rt, r, maxDropDocs)
+		// probe documents (scalars.go): 10; 4 in stream broken
+		nProbeDocs := 10
+		if stream == "broken" {
+			nProbeDocs = 4
+		}
+		p.targets[i] = nestedOracle(rt, r, maxDropDocs, nProbeDocs)
 		p.targets[i].setup = p.scenario + " ||| this root: " + rt.id
 		// stream broken: the roots' FIRST compiles are what has to overlap
 		p.targets[i].firstCompile = stream == "broken"
